@@ -77,7 +77,7 @@ func run(cmd func([]string) string, fields []string) (res string) {
 					l = l[:i]
 				}
 				frames = append(frames, l)
-				if len(frames) == 3 {
+				if len(frames) == 16 {
 					break
 				}
 			}
